@@ -164,11 +164,16 @@ func (g *Gen) newIdx(t *Tbl) *Idx {
 		}
 	default:
 		c := cols[g.T.Draw("idx-col", len(cols))]
+		desc := g.T.Chance("desc-expression", 1, 3)
 		switch kindOf(c.Type) {
 		case "text":
-			i.Parts = []IdxPart{{Expr: "lower(" + q(c.Name) + ")"}}
+			i.Parts = []IdxPart{{Expr: "lower(" + q(c.Name) + ")", Desc: desc}}
 		default:
-			i.Parts = []IdxPart{{Expr: q(c.Name) + " + 1"}}
+			i.Parts = []IdxPart{{Expr: q(c.Name) + " + 1", Desc: desc}}
+		}
+		// Sometimes followed by a plain column, like (a + b) DESC, b.
+		if c2 := cols[g.T.Draw("idx-col2", len(cols))]; c2 != c && g.T.Chance("expression-then-column", 1, 3) {
+			i.Parts = append(i.Parts, IdxPart{Col: c2.Name})
 		}
 		g.use("expression-index")
 	}
